@@ -76,7 +76,8 @@ def convert_operator(case):
         return
     children, texts = [], []
     for j in range(case.arity):
-        children.append(_node("NOT", []))
+        # a child is an expression of unknown shape (only the recursive call may look at it)
+        children.append(OBJ(EX, "BoolExpr", op=Opaque("operator of a child node"), operands=Opaque("operands of a child node")))
         texts.append(sstr("t%d" % j))
     e = _node(case.op, children)
 
